@@ -90,7 +90,7 @@ func GenEnv(r *Rng, d *Dump, userFns bool) Env {
 	}
 	// prefixes that spell an axis or a node type (grammar productions …ReservedNameConflict…)
 	if r.Chance(1, 3) {
-		e.Ns = append(e.Ns, NsBind{Pick(r, []string{"self", "child", "text", "node", "parent", "ancestor-or-self", "comment", "attribute"}), Pick(r, UriPool)})
+		e.Ns = append(e.Ns, NsBind{Pick(r, []string{"self", "child", "text", "node", "parent", "ancestor-or-self", "comment", "attribute", "div", "or"}), Pick(r, UriPool)})
 	}
 	uriOf := func() string {
 		if len(e.Ns) > 0 && r.Chance(1, 3) {
